@@ -51,8 +51,10 @@ variable {α : Type} [Scalar α]
 
 /-- `constants.eps9` -/
 def eps9 : α := dec 1 9
-/-- the literal `1e-8` of `ax2qu_single`, `ax2ro_single`, `ro2ax_single`, `ho2ax_single` -/
+/-- the literal `1e-8` of `ax2qu_single`, `ax2ro_single`, `ro2ax_single`, and of the `|s - π|` test of `ho2ax_single` -/
 def eps8 : α := dec 1 8
+/-- the literal `1e-16` of `ho2ax_single` (squared tolerance for the squared homochoric length) -/
+def eps16 : α := dec 1 16
 /-- the literal `1e-3` cut-off of `ax2ro_single` -/
 def eps3 : α := dec 1 3
 /-- the literal `0.5` -/
@@ -197,7 +199,7 @@ def hoPoly (hm : α) : List α → α → α → α
 /-- `ho2ax_single`: the homochoric inverse is a fitted polynomial in the code -/
 def ho2ax (h : Vec3 α) : AxAng α :=
   let hm := h.x * h.x + h.y * h.y + h.z * h.z
-  if lt (-eps8) hm && lt hm eps8 then ⟨⟨lit 0, lit 0, lit 1⟩, lit 0⟩
+  if lt (-eps16) hm && lt hm eps16 then ⟨⟨lit 0, lit 0, lit 1⟩, lit 0⟩
   else
     let s := match (hoFit : List α) with
       | c0 :: cs => hoPoly hm cs hm c0
@@ -255,7 +257,7 @@ def fromRodriguesFrank (r : RoFrank α) : Quat α :=
 
 /-- `Quaternion.axis` -/
 def axisProp (q : Quat α) : Vec3 α :=
-  let v : Vec3 α := if lt q.a (-(dec 1 6)) then ⟨-q.b, -q.c, -q.d⟩ else ⟨q.b, q.c, q.d⟩
+  let v : Vec3 α := if lt q.a (lit 0) then ⟨-q.b, -q.c, -q.d⟩ else ⟨q.b, q.c, q.d⟩
   let v : Vec3 α := if beq (Vec3.norm v) (lit 0) then
       (if lt (lit 0) q.a then ⟨lit 0, lit 0, lit 1⟩ else if lt q.a (lit 0) then ⟨lit 0, lit 0, -(lit 1)⟩
        else ⟨lit 0, lit 0, lit 0⟩)
